@@ -189,14 +189,14 @@ func (c *Collection) BulkWrite(ctx context.Context, models []mongo.WriteModel, o
 			result.ModifiedCount += int64(len(res.Modified))
 			if res.Upserted != nil {
 				result.UpsertedCount++
-				result.UpsertedIDs[int64(i)] = bsonkit.Get(res.Upserted, "_id")
+				result.UpsertedIDs[int64(i)] = detach(bsonkit.Get(res.Upserted, "_id"))
 			}
 		case Update:
 			result.MatchedCount += int64(len(res.Matched))
 			result.ModifiedCount += int64(len(res.Modified))
 			if res.Upserted != nil {
 				result.UpsertedCount++
-				result.UpsertedIDs[int64(i)] = bsonkit.Get(res.Upserted, "_id")
+				result.UpsertedIDs[int64(i)] = detach(bsonkit.Get(res.Upserted, "_id"))
 			}
 		case Delete:
 			result.DeletedCount += int64(len(res.Matched))
@@ -404,7 +404,7 @@ func (c *Collection) Distinct(ctx context.Context, field string, filter interfac
 	list := res.(*Result).Matched
 
 	// collect distinct values
-	values := mongokit.Distinct(list, field)
+	values := detach(mongokit.Distinct(list, field)).(bson.A)
 
 	return values, nil
 }
@@ -925,7 +925,7 @@ func (c *Collection) InsertMany(ctx context.Context, documents []interface{}, op
 	result := res.(*Result)
 
 	return &mongo.InsertManyResult{
-		InsertedIDs: bsonkit.Pick(result.Modified, "_id", false),
+		InsertedIDs: detach(bsonkit.Pick(result.Modified, "_id", false)).(bson.A),
 	}, result.Error
 }
 
@@ -973,7 +973,7 @@ func (c *Collection) InsertOne(ctx context.Context, document interface{}, opts .
 	}
 
 	return &mongo.InsertOneResult{
-		InsertedID: bsonkit.Get(result.Modified[0], "_id"),
+		InsertedID: detach(bsonkit.Get(result.Modified[0], "_id")),
 	}, nil
 }
 
@@ -1042,7 +1042,7 @@ func (c *Collection) ReplaceOne(ctx context.Context, filter, replacement interfa
 	if result.Upserted != nil {
 		return &mongo.UpdateResult{
 			UpsertedCount: 1,
-			UpsertedID:    bsonkit.Get(result.Upserted, "_id"),
+			UpsertedID:    detach(bsonkit.Get(result.Upserted, "_id")),
 		}, nil
 	}
 
@@ -1132,7 +1132,7 @@ func (c *Collection) UpdateMany(ctx context.Context, filter, update interface{},
 	if result.Upserted != nil {
 		return &mongo.UpdateResult{
 			UpsertedCount: 1,
-			UpsertedID:    bsonkit.Get(result.Upserted, "_id"),
+			UpsertedID:    detach(bsonkit.Get(result.Upserted, "_id")),
 		}, nil
 	}
 
@@ -1207,7 +1207,7 @@ func (c *Collection) UpdateOne(ctx context.Context, filter, update interface{}, 
 	if result.Upserted != nil {
 		return &mongo.UpdateResult{
 			UpsertedCount: 1,
-			UpsertedID:    bsonkit.Get(result.Upserted, "_id"),
+			UpsertedID:    detach(bsonkit.Get(result.Upserted, "_id")),
 		}, nil
 	}
 
